@@ -28,6 +28,8 @@ class Ctx:
         self.sources = sources
         self.prog = Program(sources)
         self.folder = Folder(self.prog)
+        from . import terms as _terms
+        _terms.SIGS = self.prog.signatures()  # keyword arguments of package callables are rendered positionally
         self.obs = []
         self.notes = []
         self.analysed = {}  # rule -> free-form facts about what was analysed
